@@ -1866,22 +1866,14 @@ func HandleCheck(deps ServerDeps, conn net.Conn, tag string, state *models.Clien
 	// In our implementation, this is similar to NOOP but emphasizes housekeeping
 
 	// Get current mailbox state
-	currentCount, err := db.GetMessageCountPerUser(userDB, state.SelectedMailboxID)
-	if err != nil {
-		// If there's a database error, still complete normally per RFC 3501
-		// CHECK should always succeed even if housekeeping fails
-		deps.SendResponse(conn, fmt.Sprintf("%s OK CHECK completed", tag))
-		return
-	}
-
 	currentRecent, err := db.GetUnseenCountPerUser(userDB, state.SelectedMailboxID)
 	if err != nil {
 		currentRecent = 0
 	}
 
-	// Update state tracking to ensure in-memory state matches database
-	// This is the "checkpoint" - synchronizing cached state with actual state
-	state.LastMessageCount = currentCount
+	// Update state tracking. LastMessageCount is the number of messages the
+	// client has been told about: CHECK sends no EXISTS or EXPUNGE, so it must
+	// leave that count alone, or the next NOOP would not announce what changed
 	state.LastRecentCount = currentRecent
 
 	// Note: Unlike NOOP, CHECK does not guarantee sending EXISTS responses
